@@ -175,7 +175,13 @@ impl HostTimer {
     }
 
     pub(crate) fn tick(&mut self, duration: Duration) {
-        self.elapsed += duration
+        self.elapsed += duration;
+        // The host's turn is over. The mark is only meaningful while the
+        // host's own (paused) runtime is driving the clock; read later --
+        // from a destructor run by `Sim::crash`, or from the synchronous part
+        // of the software factory run by `Sim::bounce` -- it would be compared
+        // against a different clock (wall time, or a new runtime's base).
+        self.now = None;
     }
 
     /// Set a new `Instant` for each iteration of the simulation. `elapsed` is
@@ -191,7 +197,11 @@ impl HostTimer {
 
     /// Returns how long the host has been executing for in virtual time.
     pub(crate) fn elapsed(&self) -> Duration {
-        let run_duration = self.now.expect("host instant not set").elapsed();
+        // Outside of the host's turn no time passes within the step.
+        let run_duration = match self.now {
+            Some(now) => now.elapsed(),
+            None => Duration::ZERO,
+        };
         self.elapsed + run_duration
     }
 
